@@ -15,6 +15,7 @@ use std::time::Instant;
 
 const DIRS: &[&str] = &["", "", "", "pkg", "pkg/deep", "lib v2", "lib [v2]", "Ünï", "a.b", "pkg/deep/er", "target", "build", "tests", "src", ".cfg", "_gen", "srcx", "arch.mamba"];
 const BASES: &[&str] = &["alpha", "beta", "my file", "v1.2", "Ünï", "UPPER", "9lives", "x-y", "m_1", "zed", "ALPHA", "__init__", "a+b", ".hidden", "_private", "a b c", "très", "target", "src", "x.mamba.bak"];
+const EXT_MODULES: &[(&str, &[&str])] = &[("ipaddress", &["IPv4Address", "IPv6Address", "ip_network", "IPv4Network"]), ("decimal", &["Decimal", "Inexact", "Rounded"]), ("pathlib", &["Path", "PurePath", "PosixPath"])];
 const ROOTS: &[&str] = &["proj", "proj", "my proj", "prøj", "p.r.o.j", "P1"];
 const ROOTS_GLOB: &[&str] = &["pq [x]", "a*b", "q?z", "br{a,b}"];
 
@@ -51,6 +52,26 @@ fn gen_project(rng: &mut Rng, fenced: &BTreeSet<String>, builtins: &BTreeSet<Str
         let other_dirs: Vec<&&str> = DIRS.iter().filter(|d| **d != dir_i).collect();
         let d = **rng.pick(&other_dirs);
         paths[j] = if d.is_empty() { base } else { format!("{d}/{base}") };
+    }
+    // sometimes two paths that differ only in case (in the file name or in a directory name)
+    if n >= 2 && rng.chance(1, 6) {
+        let i = rng.below(n as u64) as usize;
+        let j = (i + 1 + rng.below(n as u64 - 1) as usize) % n;
+        let p = paths[i].clone();
+        let (dir, base) = match p.rsplit_once('/') {
+            Some((d, b)) => (d.to_string(), b.to_string()),
+            None => (String::new(), p.clone()),
+        };
+        let flip = |s: &str| -> String {
+            let stem = s.strip_suffix(".mamba").unwrap_or(s);
+            let ext = &s[stem.len()..];
+            let up = stem.to_uppercase();
+            format!("{}{ext}", if up != stem { up } else { stem.to_lowercase() })
+        };
+        let cand = if !dir.is_empty() && rng.chance(1, 2) { format!("{}/{base}", flip(&dir)) } else if dir.is_empty() { flip(&base) } else { format!("{dir}/{}", flip(&base)) };
+        if cand != p && !paths.contains(&cand) {
+            paths[j] = cand;
+        }
     }
     // sometimes two sibling directories one of whose names is a string prefix of the other
     // (`util/` next to `utils/`, `v1/` next to `v10/`)
@@ -135,6 +156,32 @@ fn gen_project(rng: &mut Rng, fenced: &BTreeSet<String>, builtins: &BTreeSet<Str
             xfaults.push(xf);
         }
     }
+    // sometimes names imported from a Python module the project does not contain: several
+    // import statements naming the SAME module with different names — in several files, or two
+    // in one file — and every imported name used as a type.  Which statement comes last must
+    // not matter to any of them.
+    if rng.chance(1, 4) {
+        let (module, names) = *rng.pick(EXT_MODULES);
+        let mut order: Vec<usize> = (0..names.len()).collect();
+        rng.shuffle(&mut order);
+        let mut k = 0;
+        let single = files.iter().filter(|f| !f.text.is_empty() && !f.text.contains('\r')).count() < 2;
+        for (i, f) in files.iter_mut().enumerate() {
+            if f.text.is_empty() || f.text.contains('\r') || k >= names.len() {
+                continue;
+            }
+            let take = if single { 2 } else if rng.chance(3, 4) { 1 } else { 0 };
+            for _ in 0..take {
+                if k >= names.len() {
+                    break;
+                }
+                let nme = names[order[k]];
+                let nl = if f.text.ends_with('\n') { "" } else { "\n" };
+                f.text = format!("from {module} import {nme}\n{}{nl}def xi{i}k{k}(x: {nme}) -> {nme} => x\n", f.text);
+                k += 1;
+            }
+        }
+    }
     // sometimes a class whose parents live in two OTHER files and define a member of the same
     // name (different types), used through the child: which parent wins must not depend on the
     // order in which the files are presented
@@ -166,6 +213,11 @@ fn gen_project(rng: &mut Rng, fenced: &BTreeSet<String>, builtins: &BTreeSet<Str
 
 fn fault_line(rng: &mut Rng, tag: &str, fenced: &BTreeSet<String>) -> (String, &'static str) {
     let n = if fenced.contains("context_stage_type_error") { 3 } else { 4 };
+    // a byte sequence that is not UTF-8, in a comment or in a string literal
+    if rng.chance(1, 8) {
+        let b = crate::c13::BAD_BYTE;
+        return (if rng.chance(1, 2) { format!("# {tag} caf{b}\n") } else { format!("def {tag}enc := \"na{b}ve\"\n") }, "encoding");
+    }
     match rng.below(n) {
         3 => (format!("type {}Bad: {{Int, Str}}\n", tag.to_uppercase()), "context"),
         0 => (format!("def {tag}bad := $\n"), "lexical"),
@@ -677,6 +729,13 @@ pub fn gen_and_run(seed: u64, index: u64, scratch: &str, cfg: &GenCfg, fenced: &
                     }
                     if attempt == 11 {
                         text = format!("def {prefix}only := 1\n");
+                    }
+                }
+                // an unrelated file may import from a module that other files import from too —
+                // another name, used only here
+                if let Some((module, _)) = EXT_MODULES.iter().find(|(m, _)| cur_files.iter().any(|f| f.text.contains(&format!("from {m} import ")))) {
+                    if rng.chance(2, 3) {
+                        text = format!("from {module} import Xq{prefix}Fresh\n{text}def {prefix}xq(x: Xq{prefix}Fresh) -> Xq{prefix}Fresh => x\n");
                     }
                 }
                 cur_files.push(SrcFile { path, text });
